@@ -630,3 +630,15 @@ Proof.
       apply andb_true_iff in Hacc. apply Hacc.
   - injection Hserve as Hevs Hfin. subst evs. destruct (negotiate_quiet _ _ _ _ En _ Hin) as [Ho _]. discriminate.
 Qed.
+
+(* an association that announces no address is pinned to the client's IP, whatever the zone of the
+   client's address *)
+Lemma zoned_client_is_pinned ip zone dst :
+  ip <> [] -> ip_unspecified ip = false -> (dst = [] \/ ip_unspecified dst = true) ->
+  rewrite (CTcp ip zone) 3 dst = ip.
+Proof.
+  intros Hne Hun Hd. unfold rewrite, client_ip_of, pin_source. cbn [Z.eqb Pos.eqb].
+  assert (Hl : (length ip =? 0)%nat = false) by (destruct ip; [contradiction|reflexivity]).
+  rewrite Hl, Hun. cbn [orb].
+  destruct Hd as [->|Hd]; [reflexivity|]. rewrite Hd. destruct (length dst =? 0)%nat; reflexivity.
+Qed.
